@@ -39,8 +39,8 @@ def main():
             build(prop, "/repo", out)
             base[prop] = {os.path.basename(os.path.dirname(f)): units_of(f) for f in glob.glob(out + "/build/*/units.rs")}
         wd = os.path.join(SCR, mu["id"])
-        shutil.rmtree(wd, ignore_errors=True); os.makedirs(wd + "/crates/core")
-        subprocess.run("cp -r /repo/crates/core/src %s/crates/core/" % wd, shell=True)
+        shutil.rmtree(wd, ignore_errors=True); os.makedirs(wd + "/crates/core"); os.makedirs(wd + "/crates/backend")
+        subprocess.run("cp -r /repo/crates/core/src %s/crates/core/ && cp -r /repo/crates/backend/src %s/crates/backend/" % (wd, wd), shell=True)
         f = os.path.join(wd, mu["file"]); src = open(f).read()
         if src.count(mu["old"]) != 1:
             shutil.rmtree(wd, ignore_errors=True); continue
